@@ -202,6 +202,52 @@ def r5(ctx, facts):
                "run_request_speculative_fiber must end by returning the remembered last error (Some(Err(last_error))) or None when no attempt produced one", fb.span)
 
 
+# which outcomes of one execution do not end the whole speculative call (reviewed against the comments in can_be_ignored:
+# "can try on another node" vs "will almost certainly appear for other nodes as well / definitive")
+REF_IGNORABLE = {
+    "RequestError::EmptyPlan": False, "RequestError::RequestTimeout": False, "RequestError::ConnectionPoolError": True,
+    "RequestAttemptError::SerializationError": False, "RequestAttemptError::CqlRequestSerialization": False,
+    "RequestAttemptError::BodyExtensionsParseError": False, "RequestAttemptError::CqlResultParseError": False,
+    "RequestAttemptError::CqlErrorParseError": False, "RequestAttemptError::UnexpectedResponse": False,
+    "RequestAttemptError::RepreparedIdChanged": False, "RequestAttemptError::RepreparedIdMissingInBatch": False,
+    "RequestAttemptError::NonfinishedPagingState": False,
+    "RequestAttemptError::BrokenConnectionError": True, "RequestAttemptError::UnableToAllocStreamId": True,
+}
+
+
+def r6(ctx, facts):
+    r = ctx.rule("R6", "which execution outcomes are ignorable (another execution may still answer) equals the reviewed table", floor=12)
+    b = facts.one(r"^scylla::policies::speculative_execution::can_be_ignored$")
+    dj = dj_of(b, facts)
+    RE, RA = "scylla::errors::RequestError", "scylla::errors::RequestAttemptError"
+    got = {}
+    for bb in sorted(b.live_blocks):
+        for j, st in enumerate(b.stmts(bb)):
+            if not (st[0] == "A" and st[1] == [0, []] and st[2][0] == "use" and st[2][1][0] == "k" and st[2][1][1] == "int"):
+                continue
+            val = bool(int(st[2][1][3]))
+            for stt in dj.states_before_stmt(bb, j):
+                outer = inner = None
+                for k, v in stt.items():
+                    if k[0] != "disc" or v[0] != "in":
+                        continue
+                    ty = dj.disc_ty.get(k[1], "")
+                    if ty.endswith("errors::RequestError") or ty == RE:
+                        outer = sorted(dj.variant_names(k[1], v, RE))
+                    elif ty.endswith("errors::RequestAttemptError") or ty == RA:
+                        inner = sorted(dj.variant_names(k[1], v, RA))
+                names = ["RequestAttemptError::" + x for x in inner] if inner else (["RequestError::" + x for x in outer if x != "LastAttemptError"] if outer else [])
+                for nmx in names:
+                    got.setdefault(nmx, set()).add(val)
+    for nm, want in sorted(REF_IGNORABLE.items()):
+        r.instance("ignorable:" + nm, got.get(nm) == {want},
+                   "can_be_ignored(%s) is %s; reviewed table says %s (an ignorable outcome that is treated as definitive ends the call while other executions could still answer, and vice versa)"
+                   % (nm, sorted(got.get(nm, [])) or "not decided by a constant", want), b.span)
+    extra = sorted(k for k in got if k not in REF_IGNORABLE and not k.endswith("::DbError"))
+    r.instance("no-unreviewed-class", not extra, "error classes with a constant verdict that the reviewed table does not list: %s" % extra, b.span, nontrivial=False)
+    r.instance("db-errors-delegated", bool(b.calls_to("DbError::can_speculative_retry")), "DbError outcomes are judged by DbError::can_speculative_retry", b.span, nontrivial=False)
+
+
 def _rv_ops(rv):
     k = rv[0]
     if k in ("use", "rep"):
@@ -215,7 +261,7 @@ def _rv_ops(rv):
 
 def check(ctx):
     facts = inline_view(ctx.facts("default"))
-    for fn in (r1, r2_r4, r5):
+    for fn in (r1, r2_r4, r5, r6):
         try:
             fn(ctx, facts)
         except AnchorLost as ex:
